@@ -33,7 +33,6 @@ PROPS = {
         level_note='Assumed: std BTreeMap search behaviour under the non-lawful Ord (probe precondition proved), String/Path shims, the dispatch loop of preprocess_str, Verus+z3. See evidence.assumptions.',
         not_covered=[
             'that the arm contracts compose, over the event sequence, to one statement about the whole output (unit glue proves the loop keeps every arm precondition and the text well formed; it has no functional specification of the whole run)',
-            'PreprocessedText::text() (String -> &str deref is shimmed away)',
             'that Locate values found in the pp tree tile the source (that is C01/G-faithful for the pp grammar)',
         ],
     ),
